@@ -32,11 +32,6 @@ RULE = (
     "proxy: seeded histories with wire-sensitive arguments against Proto.proxyStep, non-trivial = >=1 such argument"
 )
 
-# the one (method, class) pair which today's code does not carry over (U1 of DESIGN.md: only SQLite raises it);
-# proved as `C01Grpc.createTrial_valueError_not_preserved`, tolerated by c01.run_on since the first build
-NOT_PRESERVED_TODAY = {("create_new_trial", "ValueError")}
-
-
 def regenerate(chk: core.Check) -> dict[str, Any] | None:
     return tgrpc.regenerate(chk)
 
@@ -389,7 +384,7 @@ CLIENT_SIDE = {("get_trial_param", "unknown parameter"), ("get_best_trial", "no 
 
 def stream_errors(chk: core.Check, handles: dict[str, fleet.Handle]) -> None:
     matrix: dict[str, dict[str, str]] = {}
-    not_preserved: list[dict[str, Any]] = []
+    u1_seen: list[str] = []
     for cfg, h in handles.items():
         inner = h.inner.storage  # type: ignore[attr-defined]
         scen = error_scenarios(inner, "err%d_%s_" % (chk.seed, re.sub(r"\W", "", cfg)))
@@ -423,15 +418,20 @@ def stream_errors(chk: core.Check, handles: dict[str, fleet.Handle]) -> None:
                     chk.broke("correspondence", {"stream": "errors", "case": case, "backend_raised": a["e"], "proxy_raised": seen, "model": pred})
             if method == "get_best_trial" and {a["e"], b["e"]} <= {"ValueError", "RuntimeError"}:
                 continue  # U3: which of the two applicable errors wins is unspecified
+            if (method, what, cfg) == ("create_new_trial", "conflicting template (U1)", "grpc(rdb)"):
+                # the pair that CreateNewTrial used to lose: it must be provoked here (SQLite rejects the template) ...
+                if a["e"] != "ValueError":
+                    chk.broke("correspondence", {"stream": "errors", "case": case, "why": "SQLite no longer rejects the conflicting template (%s): the "
+                                                 "create_new_trial/ValueError pair is not exercised" % a["e"]})
+                u1_seen.append("%s -> %s" % (a["e"], b["e"] if b["code"] is None else "%s(%s)" % (b["e"], b["code"])))
             if a["e"] != b["e"]:
+                # ... and, like every other pair, arrive as the same class
                 entry = dict(case, backend=a["e"], proxy=b["e"], code=b["code"])
-                if (method, a["e"]) in NOT_PRESERVED_TODAY and b["code"] == "UNKNOWN":
-                    not_preserved.append(entry)
-                else:
-                    chk.violation({"backend": cfg, "base": h.base, "op": method, "kind": "error-class"}, entry,
-                                  "%s: the backend raises %s, the proxy over it raises %s (%s)" % (method, a["e"], b["e"], what))
+                chk.violation({"backend": cfg, "base": h.base, "op": method, "kind": "error-class"}, entry,
+                              "%s: the backend raises %s, the proxy over it raises %s%s (%s)" % (
+                                  method, a["e"], b["e"], "" if b["code"] is None else " code=%s" % b["code"], what))
     chk.extra["grpc_error_matrix_backend_to_proxy"] = matrix
-    chk.extra["grpc_error_class_not_preserved_today"] = not_preserved
+    chk.extra["grpc_create_new_trial_value_error_backend_to_proxy"] = u1_seen
 
 
 # ---------------------------------------------------------------------------------------------- proxy histories
@@ -488,7 +488,7 @@ def run_proxy_history(cfg: str, h: fleet.Handle, r: random.Random, drv: core.Dri
             if not real_name.startswith("no-name-"):
                 return {"step": i, "op": op, "why": "an empty study name became %r" % real_name, "stats": stats}
             uuid = real_name[len("no-name-"):]
-        raised = (obs.get("k") == "err" and obs.get("e") == "ValueError") or (op["op"] == "createTrial" and obs.get("k") == "rpcError")
+        raised = obs.get("k") == "err" and obs.get("e") == "ValueError"
         mutating = op["op"] in K.MUTATING
         dump = mutating and (r.random() < 0.3 or i == n_ops - 1)
         req = dict(K.to_driver(op, impl_raised=raised, dump=dump), uuid=uuid)
